@@ -326,6 +326,66 @@ def corr_refusal(ctx, n):
     ctx.cases += 1
 
 
+def corr_arrays(ctx, n):
+    """The array versions in sparrowpy/form_factor/kang.py (`patch2patch_ff_kang`,
+    `_source2patch_energy_kang`, `_patch2receiver_energy_kang`) against the Lean kernels: random
+    axis-aligned patch pairs with their own in-plane sizes, both branches, random placement."""
+    common.import_repo()
+    from sparrowpy.form_factor import kang as K
+    rng = ctx.rng
+    lines, impl, kinds = [], [], []
+    for _ in range(n):
+        aS = int(rng.integers(0, 3))
+        orth = rng.random() < 0.6
+        aR = int(rng.choice([a for a in range(3) if a != aS])) if orth else aS
+        ns = np.zeros(3)
+        ns[aS] = float(rng.choice([1.0, -1.0]))
+        nr = np.zeros(3)
+        nr[aR] = float(rng.choice([1.0, -1.0]))
+        size_s = rng.uniform(0.3, 2.0, size=3)
+        size_s[aS] = 0.0
+        size_r = rng.uniform(0.3, 2.0, size=3)
+        size_r[aR] = 0.0
+        off = rng.uniform(-6, 6, size=3)
+        sc = rng.uniform(0.5, 4.0, size=3) + off
+        rc = rng.uniform(0.5, 4.0, size=3) + off
+        if not orth:
+            rc[aS] = sc[aS] + float(rng.choice([1.0, -1.0])) * rng.uniform(0.8, 4.0)
+        else:
+            # keep the two patches apart along both normals (no division by zero in eq. 15)
+            rc[aS] = sc[aS] + rng.uniform(0.3, 3.0) * float(rng.choice([1.0, -1.0]))
+            rc[aR] = rc[aR] + 0.0
+            if abs(sc[aR] - rc[aR]) < 0.3:
+                sc[aR] = rc[aR] + 0.5
+        centers = np.array([sc, rc])
+        normals = np.array([ns, nr])
+        sizes = np.array([size_s, size_r])
+        ff = K.patch2patch_ff_kang(centers, normals, sizes, np.array([[0, 1]]))
+        ctx.oracle_evals += 1
+        lines.append(' '.join(['kangffarr', fhexs(sc), fhexs(rc), fhexs(ns), fhexs(nr), fhexs(size_s)]))
+        impl.append(float(ff[0, 1]))
+        kinds.append('patch2patch_ff_kang (%s)' % ('orthogonal' if orth else 'parallel'))
+        ctx.count('arrays.ff_%s' % ('orth' if orth else 'par'))
+        # first-order energy of the receiver patch from a source, and the receiver weight
+        src = rc + nr * rng.uniform(0.3, 3.0) + rng.uniform(-1.5, 1.5, size=3) * (1 - np.abs(nr))
+        att = float(rng.choice([0.0, rng.uniform(0, 0.2)]))
+        e, dist = K._source2patch_energy_kang(src.copy(), rc[None, :].copy(), nr[None, :].copy(), np.array([att]), size_r[None, :].copy(), 1)
+        lines.append(' '.join(['kanginitp', fhexs(nr), fhexs(rc), fhexs(size_r), fhexs(src), fhex(1.0), fhex(0.0), fhex(att)]))
+        impl.append(float(e[0, 0]))
+        kinds.append('_source2patch_energy_kang')
+        rec = rc + nr * rng.uniform(0.3, 3.0) + rng.uniform(-1.5, 1.5, size=3) * (1 - np.abs(nr))
+        rf = K._patch2receiver_energy_kang((rec - rc)[None, :], nr[None, :])
+        lines.append(' '.join(['kangrecvf', fhexs(nr), fhexs(rc), fhexs(rec), fhex(0.0)]))
+        impl.append(float(rf[0]))
+        kinds.append('_patch2receiver_energy_kang')
+        ctx.oracle_evals += 2
+    for kind, v, line in zip(kinds, impl, common.run_driver(lines)):
+        st, val = common.parse_ok_floats(line)
+        if ctx.cmp.tag('corr:form_factor/kang.py %s status' % kind, 'ok', st):
+            ctx.cmp.ulp('corr:form_factor/kang.py %s' % kind, [v], val, rtol=1e-10, atol=1e-300)
+    ctx.cases += 1
+
+
 def run(ctx):
     n = 4 if ctx.tier == 'quick' else 40
     for k in range(n):
@@ -336,6 +396,7 @@ def run(ctx):
         if recursion_oracle(ctx, room, rad):
             invariance_oracle(ctx, room, rad, rec)
     corr_refusal(ctx, 12 if ctx.tier == 'quick' else 150)
+    corr_arrays(ctx, 60 if ctx.tier == 'quick' else 1500)
 
 
 def oracle(ctx, budget_s=60):
